@@ -444,8 +444,13 @@ func loadIpMarkerFromFile(fp string) (*ipMarker, error) {
 }
 
 func cacheKey(q *dnsmsg.Question, mark string) pool.Buffer {
-	b := pool.GetBuf(len(q.Name) + 4 + len(mark))
+	// Layout: name | 0 | class | type | mark. q.Name has no terminating
+	// zero octet; without one, the class octets of one key can be read as
+	// one more label of a longer name and two different questions collide.
+	b := pool.GetBuf(len(q.Name) + 5 + len(mark))
 	off := copy(b, q.Name)
+	b[off] = 0
+	off++
 	binary.BigEndian.PutUint16(b[off:], uint16(q.Class))
 	off += 2
 	binary.BigEndian.PutUint16(b[off:], uint16(q.Type))
